@@ -260,7 +260,6 @@ def _solve(hyps, goal, timeout_ms, ematch_only=False, seed=0):
     s.set("timeout", timeout_ms)
     if seed:
         s.set("smt.random_seed", seed)
-        s.set("sat.random_seed", seed)
     if ematch_only:
         if os.environ.get("VERIF_AC", "1") == "0":
             s.set("auto_config", False)
